@@ -239,7 +239,7 @@ type pipeline struct {
 	// partValid says whether a damaged secondary download is by itself a
 	// valid file of its kind (then a success with other content is the
 	// pipeline's listed finding partClass)
-	partValid map[string]func([]byte) bool
+	partValid func(name string) func([]byte) bool
 	partClass string
 }
 
@@ -469,7 +469,15 @@ func pipelines(corpus string) []pipeline {
 	// (with one GET per changed advisory) and deletions.csv
 	ps = append(ps, pipeline{name: "vex", wrapper: "tar.zst", gen: func(rnd *hx.Rand, n int) []byte { return genVEXArchive(rnd, n+1) },
 		valid: validVEXArchive, site: vexSite,
-		partValid: map[string]func([]byte) bool{"changes.csv": validVEXCSV, "deletions.csv": validVEXCSV}, partClass: "still-valid-vex-csv",
+		partValid: func(name string) func([]byte) bool {
+			switch {
+			case strings.HasSuffix(name, ".csv"):
+				return validVEXCSV
+			case strings.HasSuffix(name, ".json"):
+				return validCSAF
+			}
+			return nil
+		}, partClass: "still-valid-vex-plain",
 		routes: func(b body, aux map[string]body) []route {
 			rs := []route{
 				suffix("archive_latest.txt", nil, func() body { return aux["archive_latest.txt"] }),
